@@ -203,10 +203,11 @@ theorem window_has_reported_line (lines : List Bytes) (L : Nat) (b a : Nat) :
     exact ⟨t, ht⟩
 
 /-- unreadable file, empty file, or a position beyond the end of the file: the message degrades to its
-    header line (no excerpt, no failure) -/
+    header line and the documentation link (no excerpt, no failure) -/
 theorem no_excerpt (M b a : Nat) (url code msg : Bytes) (lines : List Bytes) (L C : Int)
     (h : lines = [] ∨ (lines.length : Int) ≤ L - b - 1) :
-    render M b a url code msg lines L C = str "error: [" ++ code ++ str "] " ++ msg ++ [10] := by
+    render M b a url code msg lines L C
+      = str "error: [" ++ code ++ str "] " ++ msg ++ [10] ++ str "   = help: " ++ url ++ [10] := by
   have hw : window lines L b a = [] := by
     unfold window
     rcases h with h | h
@@ -217,13 +218,22 @@ theorem no_excerpt (M b a : Nat) (url code msg : Bytes) (lines : List Bytes) (L 
         rw [if_pos (by split <;> omega)]
   simp [render, hw]
 
+/-- **every message ends with the documentation link**, whether or not there is an excerpt -/
+theorem render_help_link (M b a : Nat) (url code msg : Bytes) (lines : List Bytes) (L C : Int) :
+    ∃ pre, render M b a url code msg lines L C = pre ++ str "   = help: " ++ url ++ [10] := by
+  unfold render
+  simp only
+  split
+  · exact ⟨str "error: [" ++ code ++ str "] " ++ msg ++ [10], by simp only [List.append_assoc]⟩
+  · exact ⟨_, rfl⟩
+
 /-- every message begins with `error: [CODE] ` followed by the violation's own text -/
 theorem render_header (M b a : Nat) (url code msg : Bytes) (lines : List Bytes) (L C : Int) :
     ∃ rest, render M b a url code msg lines L C = str "error: [" ++ code ++ str "] " ++ msg ++ [10] ++ rest := by
   unfold render
   simp only
   split
-  · exact ⟨[], by simp⟩
+  · exact ⟨_, by simp only [List.append_assoc]; rfl⟩
   · exact ⟨_, by simp only [List.append_assoc]; rfl⟩
 
 /-! ## Instantiation at the constants regenerated from /repo (T5) -/
